@@ -10,24 +10,32 @@ from harness.sched import runner
 # property -> scenario mix (name, weight, job options) and the model-checking configs that carry its invariants
 PROPS = {
     "C01": dict(mix=[("plain", 1.0, {})], mc=["MC_base"]),
-    "C02": dict(mix=[("plain", 0.6, {"features": {"retries": True}}), ("faults", 0.4, {})], mc=["MC_retry"]),
+    "C02": dict(mix=[("plain", 0.5, {"features": {"retries": "always"}}),
+                     ("plain", 0.3, {"features": {"retries": "always"}, "mode": "any"}), ("faults", 0.2, {})], mc=["MC_retry"]),
     "C03": dict(mix=[("plain", 0.5, {}), ("plain", 0.5, {"mode": "any"})], mc=["MC_base"]),
     "C04": dict(mix=[("plain", 1.0, {"features": {"max_fcp": 5, "future": True}})], mc=["MC_runahead"]),
-    "C05": dict(mix=[("plain", 1.0, {"features": {"queues": True, "max_tasks": 5}})], mc=["MC_queue"]),
+    "C05": dict(mix=[("plain", 0.6, {"features": {"queues": "always", "max_tasks": 5}}),
+                     ("cmds", 0.4, {"features": {"queues": "always"}, "kinds": ["trigger"]})], mc=["MC_queue"]),
     "C07": dict(mix=[("plain", 0.6, {"features": {"future": True}}), ("stopcmds", 0.4, {})], mc=["MC_base"]),
     "C09": dict(mix=[("plain", 0.5, {}), ("faults", 0.5, {})], mc=["MC_msgs"]),
-    "C10": dict(mix=[("faults", 1.0, {})], mc=["MC_msgs"]),
+    "C10": dict(mix=[("faults", 0.5, {}), ("cmds", 0.5, {"kinds": ["trigger"], "dups": True,
+                                                             "features": {"retries": "always", "queues": "always"}})], mc=["MC_msgs"]),
     "C11": dict(mix=[("plain", 0.5, {"mode": "any"}), ("plain", 0.5, {})], mc=["MC_base"]),
     "C26": dict(mix=[("plain", 0.6, {}), ("faults", 0.4, {})], mc=["MC_base"]),
     "C06": dict(mix=[("hold", 1.0, {})], mc=["MC_hold"]),
     "C43": dict(mix=[("stopcmds", 0.8, {}), ("restart", 0.2, {})], mc=["MC_stop"]),
     "C45": dict(mix=[("abstrig", 1.0, {})], mc=["MC_abs"]),
     "C46": dict(mix=[("warm", 1.0, {})], mc=["MC_warm"]),
+    "C08": dict(mix=[("cmds", 1.0, {"kinds": ["trigger", "trigger", "set"]})], mc=["MC_flows"]),
+    "C27": dict(mix=[("cmds", 1.0, {"kinds": ["reload"]})], mc=["MC_reload"]),
+    "C28": dict(mix=[("cmds", 1.0, {"kinds": ["trigger"]})], mc=["MC_trigger"]),
+    "C29": dict(mix=[("cmds", 1.0, {"kinds": ["set"]})], mc=["MC_set"]),
+    "C30": dict(mix=[("cmds", 1.0, {"kinds": ["remove", "remove", "trigger"]})], mc=["MC_remove"]),
     "C19": dict(mix=[("restart", 1.0, {})], mc=["MC_restart"]),
     "C20": dict(mix=[("crash", 1.0, {})], mc=["MC_crash"]),
     "C31": dict(mix=[("plain", 1.0, {"features": {"sequential": "always"}})], mc=["MC_seq"]),
 }
-N_RUNS = {"quick": 48, "thorough": 1200}
+N_RUNS = {"quick": 96, "thorough": 1500}
 
 def _jobs(ctx, cfg, n):
     jobs = []
